@@ -30,8 +30,8 @@ CHECKS = {
   engine="girvm",
   technique="trace-containment monitor: per-activation statement traces of the reference executor (validated per input against CPython / node) checked against the CFG lian stores in semantic_p1/cfg.bundle*, over systematically enumerated and random control-flow skeletons x enumerated decision vectors",
   category="exploration",
-  text="Control-flow skeletons (every outer x inner construct nesting in 4 positions with/without trailing statement, plus seeded random skeletons to depth 3, 4 in thorough) are rendered for Python and JavaScript, analysed by real lang+P1 runs and executed on exhaustively enumerated decision vectors (<=48 per skeleton, sampled beyond; loops 0/1/2 iterations; raise/throw under a decision). Every consecutive statement pair of every activation must be a CFG edge, the first statement an entry node, every normal completion must reach the exit node, CFG nodes must belong to the method, continue must be wired inside its loop. An execution is used only if CPython/node agree with the executor on that input. A wrapper counts which ControlFlowAnalysis handlers ran (a required set missing => inconclusive). Known unmodelled transfers are re-judged edge by edge, never exempting the rest of the trace.",
-  note="Trusted: CPython/node as ground truth for which simple statements execute; girvm's mapping of executions to GIR statement ids (loop headers appear at each test; only the selected case label of a switch is traced). Only Python and JavaScript frontends; exceptions only from explicit raise/throw; a statement followed by itself needs no self edge; class member declarations may lie between a class declaration and its successor.",
+  text="Control-flow skeletons (every outer x inner construct nesting in 4 positions with/without trailing statement, plus seeded random skeletons to depth 3, 4 in thorough) are rendered for Python, JavaScript, Java and C, analysed by real lang+P1 runs and executed on exhaustively enumerated decision vectors (<=48 per skeleton, sampled beyond; loops 0/1/2 iterations; raise/throw under a decision). Every consecutive statement pair of every activation must be a CFG edge, the first statement an entry node, every normal completion must reach the exit node, CFG nodes must belong to the method, continue must be wired inside its loop. An execution is used only if CPython / node / java / the gcc-built binary agree with the executor on that input. A wrapper counts which ControlFlowAnalysis handlers ran (a required set missing => inconclusive). Known unmodelled transfers are re-judged edge by edge, never exempting the rest of the trace.",
+  note="Trusted: CPython/node/java/gcc as ground truth for which simple statements execute; girvm's mapping of executions to GIR statement ids (loop headers appear at each test; only the selected case label of a switch is traced). Python, JavaScript, Java and C frontends (of seven); exceptions only from explicit raise/throw; a statement followed by itself needs no self edge; class member declarations may lie between a class declaration and its successor.",
   design="DESIGN.md §C04"),
  "C01": dict(
   engine="girvm",
